@@ -83,4 +83,59 @@ theorem restart_overlay_discards (s : State) (conf : Conf) (h1 : s.conf.store = 
 example : roundTrip { manifests := [{ dig := "sha256:a", ann := { isNil := false } }] } =
     { manifests := [{ dig := "sha256:a" }] } := by
   simp [roundTrip, Ann.len]
+/-! ## restart equivalence, and exactly what the open findings F31 / F32 violate
+
+`ChildrenExact s rp`: the child records held in memory are what a load of index.json computes from the entries that are on
+disk.  `Normal ix`: no entry carries an empty annotation map (what JSON cannot tell from a missing one).  Under these two
+conditions closing and reopening a directory changes nothing but the upload sessions, so every read answers the same.
+F31 and F32 are histories after which `ChildrenExact` is false (a child record removed although its parent index is
+still listed, or left behind although its parent was deleted): the hypothesis is what the code fails to maintain. -/
+def ChildrenExact (s : State) (rp : Repo) : Prop := (reindex s rp).index.children = rp.index.children
+def Normal (ix : Index) : Prop := ∀ d ∈ ix.manifests, d.ann.len = 0 → d.ann = {}
+
+theorem roundTrip_normal (ix : Index) (h : Normal ix) : (roundTrip ix).manifests = ix.manifests := by
+  unfold roundTrip
+  simp only
+  have : ∀ l : List Desc, (∀ d ∈ l, d.ann.len = 0 → d.ann = {}) →
+      l.map (fun d => if d.ann.len = 0 then { d with ann := {} } else d) = l := by
+    intro l hl
+    induction l with
+    | nil => rfl
+    | cons d t ih =>
+      simp only [List.map_cons]
+      rw [ih (fun x hx => hl x (List.mem_cons_of_mem _ hx))]
+      by_cases h0 : d.ann.len = 0
+      · have := hl d (List.mem_cons_self) h0
+        simp only [h0, if_true]
+        cases d; simp_all
+      · simp [h0]
+  exact this _ h
+
+/-- restart of the directory store (reload of every repository): with exact child records and a normal index the
+    repository is literally the same afterwards, except that its upload sessions are gone -/
+theorem restart_same_partial (s : State) (rp : Repo) (hn : Normal rp.index) (hc : ChildrenExact s rp) :
+    reloadRepo s rp = { rp with uploads := [] } := by
+  unfold ChildrenExact at hc
+  have hm := roundTrip_normal rp.index hn
+  unfold reloadRepo
+  have : reindex s rp = rp := by
+    have h1 : (reindex s rp).index.manifests = rp.index.manifests := by simp [reindex, hm]
+    have h2 : (reindex s rp).blobs = rp.blobs ∧ (reindex s rp).name = rp.name ∧ (reindex s rp).uploads = rp.uploads ∧
+        (reindex s rp).old = rp.old := by simp [reindex]
+    cases rp with
+    | mk name blobs uploads index old =>
+      cases index with
+      | mk ms ch =>
+        simp only [reindex] at h1 hc h2 ⊢
+        simp_all
+  rw [this]
+
+/-- the hypotheses are satisfiable by a repository with content: entries without index media type have no children to scan -/
+example (s : State) : ChildrenExact s { name := "r", index := { manifests := [] } } ∧
+    Normal ({ manifests := [{ mt := "ocim", dig := "sha256:a", ann := { isNil := false, tag := "t" } }] } : Index) := by
+  refine ⟨by simp [ChildrenExact, reindex, roundTrip, scanChildren], ?_⟩
+  intro d hd h0
+  simp only [List.mem_singleton] at hd
+  subst hd
+  simp [Ann.len] at h0
 end C10
